@@ -651,7 +651,7 @@ func runWorker(c *Check, tier string, seed int64, w int, logdir string, jobs <-c
 			if quit {
 				if b, err := os.ReadFile(p.errf); err == nil {
 					if i := bytes.LastIndex(b, []byte("SIGQUIT: quit")); i >= 0 {
-						tail = string(b[i:min(len(b), i+6000)])
+						tail = dumpSummary(string(b[i:]))
 					}
 				}
 			}
@@ -679,6 +679,29 @@ func runWorker(c *Check, tier string, seed int64, w int, logdir string, jobs <-c
 		}
 		results <- r
 	}
+}
+
+// dumpSummary keeps the goroutines of a SIGQUIT dump that are inside the code under test.
+func dumpSummary(dump string) string {
+	var keep []string
+	for _, blk := range strings.Split(dump, "\n\n") {
+		if !strings.HasPrefix(blk, "goroutine ") || !strings.Contains(blk, "github.com/google/pprof/") {
+			continue
+		}
+		inTarget := false
+		for _, l := range strings.Split(blk, "\n") {
+			if strings.HasPrefix(l, "github.com/google/pprof/") && !strings.HasPrefix(l, "github.com/google/pprof/verif/") {
+				inTarget = true
+			}
+		}
+		if inTarget && len(keep) < 4 {
+			keep = append(keep, Trunc(blk, 1500))
+		}
+	}
+	if len(keep) == 0 {
+		return Trunc(dump, 6000)
+	}
+	return "SIGQUIT dump, goroutines inside pprof code:\n" + strings.Join(keep, "\n\n")
 }
 
 func tailFile(path string, n int) string {
